@@ -54,6 +54,9 @@ def check(run):
         C08.writers(R)       # the closing / closed flags change only at their tabled places: no window (say at the Closed
                              # event) in which neither is set while the socket is still open
     compression_writers(R, 'C12.enter')
+    with R.as_rule('C12.tests'):
+        C08.refuse(R)            # the refusing tests dominate the one sendall; a frame is written by the thread that sends it,
+        C11.once(R)              # at once (no queue another thread flushes after its own Close)
     from . import C17
     R.rule('C12.session', 'the state that refuses sends and the socket they go to belong to the same connection: every '
                           'connect() gets a newly built session (no socket of the previous connection behind fresh flags)', 5)
